@@ -46,7 +46,7 @@ func TestMain(m *testing.M) {
 var rec = hx.NewRecorder("C11",
 	"1-2 documents created on node 0 with encrypt:true, an encryptFields subset, both, or none (control), through the collection API or GraphQL; "+
 		"every written value is a unique needle (12 mixed characters / 12 blob bytes / 62-bit ints / random float64 bit patterns / JSON leaves / array elements / 56-bit counter increments); "+
-		"fields are omitted or null at creation and first set later; 1-12 steps of updates (1-3 fields, by the creator or by the key-holding node 1 after a causal hand-over), deletes, deliveries to the key-holding node 1 and the key-less node 2; "+
+		"fields are omitted or null at creation and first set later; 1-12 steps of updates (1-3 fields, by the creator or by the key-holding node 1 after a causal hand-over), deletes, either of them also while the writer's key store is unavailable (every read / the n-th read under /db/enc fails, or its entries are gone; the write must fail leaving nothing, or succeed encrypted), deliveries to the key-holding node 1 and the key-less node 2; "+
 		"the harness answers every enc-keys-request (all keys / all but denied field keys / none); finally everything is delivered everywhere. "+
 		"non-trivial = an update wrote a value to an encrypted field after creation, or first set a field after creation in an encrypted document; distinct = distinct case",
 	"only /db/blocks and event.Update.Block are shared with peers; plaintext under /db/data of a key-holding node is expected",
@@ -100,6 +100,18 @@ func labels(c Case, st runStats) []string {
 	flag(st.keylessDocsInvisible > 0, "key-less:encrypted-doc-invisible")
 	flag(st.keylessFieldsNull > 0, "key-less:encrypted-field-null")
 	flag(st.controlsFound > 0, "control-needles-found")
+	flag(st.keyFaultSteps > 0, "key-unavailable:write-attempted")
+	flag(st.keyFaultFired > 0, "key-unavailable:key-read-failed-or-key-gone")
+	flag(st.keyFaultFailed > 0, "key-unavailable:write-refused-nothing-stored-then-retried")
+	flag(st.keyFaultSucceeded > 0, "key-unavailable:write-succeeded-despite-failed-key-read")
+	flag(st.keyFaultSucceededGone > 0, "key-unavailable:write-succeeded-while-key-entries-gone")
+	seen := map[string]bool{}
+	for _, op := range c.Ops {
+		if k := "key-fault:" + op.KeyFault + ":" + op.Kind; op.KeyFault != "" && !seen[k] {
+			seen[k] = true
+			l = append(l, k)
+		}
+	}
 	for _, op := range c.Ops {
 		if op.Kind == "update" && op.Route == "gql" {
 			l = append(l, "route-update:gql")
